@@ -194,6 +194,10 @@ CO_ERR COTPdoGetMap (CO_TPDO *pdo, uint16_t num)
     if (err != CO_ERR_NONE) {
         return (CO_ERR_TPDO_MAP_OBJ);
     }
+    if (mapnum > 8) {
+        /* the mapping table holds 8 objects */
+        return (CO_ERR_TPDO_MAP_OBJ);
+    }
 
     /* build mapping table */
     dlc = 0;
@@ -540,6 +544,10 @@ CO_ERR CORPdoGetMap(CO_RPDO *pdo, uint16_t num)
     idx = 0x1600 + num;
     err = CODictRdByte(cod, CO_DEV(idx, 0), &mapnum);
     if (err != CO_ERR_NONE) {
+        return (CO_ERR_RPDO_MAP_OBJ);
+    }
+    if (mapnum > 8) {
+        /* the mapping table holds 8 objects */
         return (CO_ERR_RPDO_MAP_OBJ);
     }
 
